@@ -519,3 +519,7 @@ def run(ctx, prj: Project):
     rule_R4(ctx, prj)
     rule_R5(ctx, prj)
     rule_R6(ctx, prj)
+    from .c06 import rule_no_state_left
+    rule_no_state_left(ctx, prj, "R7", ["codelimit.common.report.format_text:print_summary", "codelimit.common.report.format_markdown:print_summary",
+                                        "codelimit.common.report.Report:Report.quality_profile_percentage"],
+                       "the summary renderers (text and Markdown) and the percentages")
